@@ -68,6 +68,9 @@ PROJECTS = {
     'buildtime_option': (dict(site.PROJECT_B), ['--project-name', 'proj', '--buildtime', '2020-02-02 02:02:02', '--theme', 'readthedocs'], 'no_epoch'),
     # most features at once (zope interfaces, overloads, re-exports, import cycle, several docformats, a module root next to the package)
     'kitchen': (dict(kitchen.KITCHEN), ['--project-name', 'ks', '--process-types', '--privacy=PRIVATE:ks.api.Point', '--sidebar-expand-depth', '2'], None),
+    # the roots come from the add-package key of a config file, in an order that is not the sorted one
+    'config_roots': ({'zeta.py': '"""z"""\nclass Z: pass\n', 'alpha.py': '"""a"""\nimport zeta\nclass A(zeta.Z): pass\n', 'mid/__init__.py': '"""m"""\nfrom alpha import A\nclass M(A): pass\n',
+                      'beta/__init__.py': '"""b"""\n', 'gamma.py': 'x = 1\n', 'delta/__init__.py': 'y = 2\n'}, ['--project-name', 'cfg'], 'config'),
     # overlapping pattern rules of different privacy classes (the one given last wins: their order must survive option handling)
     'overlapping_rules': (dict(site.PROJECT_B), ['--project-name', 'proj', '--privacy=PRIVATE:pk.**', '--privacy=HIDDEN:pk.mod.*d', '--privacy=PUBLIC:pk.m*.S*', '--privacy=PRIVATE:pk.mod.S*',
                                                  '--privacy=HIDDEN:pk.*.B*', '--privacy=PUBLIC:pk.mod.Ba*', '--privacy=PRIVATE:pk.sub*', '--privacy=PUBLIC:pk.su?'], None),
@@ -105,7 +108,7 @@ def _cases(tier, seed):
     names = list(PROJECTS)
     if tier == 'quick':
         names = ['single_root_unnamed', 'two_roots_unnamed', 'three_roots_named', 'zope_and_subclasses', 'docstring_errors', 'buildtime_option', 'case_pairs',
-                 'epoch_zero', 'zope_inherited_interfaces', 'star_reexport', 'sidebar_expanded', 'kitchen', 'html_subjects', 'overlapping_rules', 'source_order_ties']
+                 'epoch_zero', 'zope_inherited_interfaces', 'star_reexport', 'sidebar_expanded', 'kitchen', 'html_subjects', 'overlapping_rules', 'source_order_ties', 'config_roots']
     for n in names:
         yield {'project': n}
     if tier == 'thorough':
@@ -155,6 +158,11 @@ def _check(case):
                 f.write(text)
         roots = sorted({rel.split('/')[0] for rel in files})
         argv = list(argv)
+        if mode == 'config':
+            order = ['zeta.py', 'mid', 'alpha.py', 'gamma.py', 'delta', 'beta']
+            with open(os.path.join(src, 'setup.cfg'), 'w') as f:
+                f.write('[tool:pydoctor]\nadd-package =\n' + ''.join(f'    {os.path.join(src, r)}\n' for r in order))
+            roots = []
         if mode == 'with_base':
             argv += ['--project-base-dir', src]
         epoch = 'zero' if mode == 'epoch0' else mode != 'no_epoch'
@@ -190,7 +198,7 @@ HARNESS = {
     f'{D}:get_system': {'cases': _cases, 'check': _check,
         'covers': [f'{D}:make', f'{M}:System.addPackage', f'{M}:System.root_names', 'pydoctor/templatewriter/util.py:objects_order',
                    'pydoctor/templatewriter/summary.py:_lckey', 'pydoctor/templatewriter/writer.py:TemplateWriter.writeSummaryPages'],
-        'bound': '15 (18) projects (one/two/three roots, with and without --project-name, 23 cross-importing modules, zope interfaces with 12 implementers, '
+        'bound': '16 (19) projects (one/two/three roots, with and without --project-name, 23 cross-importing modules, zope interfaces with 12 implementers, '
                  'reported docstring errors, source links, --buildtime) x {hash seed 1, hash seed 2, hash seed 77 with reversed directory listings, reused '
                  'output directory}; fresh interpreter per run; sha256 of every written file',
         'budget_s': {'quick': 400, 'thorough': 2400}},
